@@ -509,54 +509,82 @@ type writer struct {
 	canHold bool
 }
 
-// op performs one write; returns whether it was on a negotiated stream.
-func (w *writer) op(e *env, wantNeg bool) bool {
-	r := w.r
-	var st *stream
-	if !wantNeg && len(w.nn) > 0 && r.Chance(w.pNN) {
-		st = w.nn[r.Intn(len(w.nn))]
-	} else {
-		st = w.neg[r.Intn(len(w.neg))]
-	}
-	tms := w.tm[st.idx]
-	tm := &tms[r.Intn(len(tms))]
-	if w.pRej > 0 && st.negotiated && r.Chance(w.pRej) {
-		tm = w.rejTm[st.idx]
-	}
-	pi := r.Intn(len(w.pays))
-	idx := w.opIdx
-	w.opIdx++
-	key := uint32(w.gid)<<idxBits | idx&(1<<idxBits-1)
+// prepared is one write drawn from the writer's PRNG, ready to be executed.
+type prepared struct {
+	st    *stream
+	tm    *tmpl
+	pi    int
+	idx   uint32
+	key   uint32
+	pre   rtp.Header  // pristine (shares slices with the template; never handed to the library)
+	hdr   *rtp.Header // deep copy handed to the library (nil: nil-header write)
+	yield int
+	hold  int64
+	inj   bool
+	preY  bool
+}
 
+// prepare draws the next write.
+func (w *writer) prepare(e *env, wantNeg, light bool) *prepared {
+	r := w.r
+	p := &prepared{}
+	if !wantNeg && len(w.nn) > 0 && r.Chance(w.pNN) {
+		p.st = w.nn[r.Intn(len(w.nn))]
+	} else {
+		p.st = w.neg[r.Intn(len(w.neg))]
+	}
+	tms := w.tm[p.st.idx]
+	p.tm = &tms[r.Intn(len(tms))]
+	if w.pRej > 0 && p.st.negotiated && r.Chance(w.pRej) {
+		p.tm = w.rejTm[p.st.idx]
+	}
+	p.pi = r.Intn(len(w.pays))
+	p.idx = w.opIdx
+	w.opIdx++
+	p.key = uint32(w.gid)<<idxBits | p.idx&(1<<idxBits-1)
 	isNil := w.pNil > 0 && r.Chance(w.pNil)
-	pre := tm.h // shallow copy: shares slices with the template, both stay away from the library
-	pre.Timestamp = key ^ e.mask
-	pre.SequenceNumber = uint16(idx*7 + uint32(w.gid))
-	var hdr *rtp.Header
+	p.pre = p.tm.h
+	p.pre.Timestamp = p.key ^ e.mask
+	p.pre.SequenceNumber = uint16(p.idx*7 + uint32(w.gid))
 	if !isNil {
-		cl := pre.Clone()
-		hdr = &cl
-		w.kinds[tm.kind]++
+		cl := p.pre.Clone()
+		p.hdr = &cl
+		w.kinds[p.tm.kind]++
 	} else {
 		w.kinds[kNil]++
 	}
-
-	s := e.slots[w.gid]
-	s.mu.Lock()
-	s.active, s.key, s.st, s.pre, s.tm, s.pay = true, key, st, &pre, tm, w.pays[pi]
-	s.seen, s.hasNum, s.num = 0, false, 0
-	s.yields, s.hold, s.inject = 0, 0, false
+	if light {
+		return p
+	}
 	if r.Chance(e.pYieldGate) {
-		s.yields = r.Range(1, 3)
+		p.yield = r.Range(1, 3)
 	}
 	if w.canHold && e.pHold > 0 && r.Chance(e.pHold) {
-		s.hold = int64(r.Pick(4, 20, 100, 600, 6000))
+		p.hold = int64(r.Pick(4, 20, 100, 600, 6000))
 	}
 	if e.pInject > 0 && r.Chance(e.pInject) {
-		s.inject = true
+		p.inj = true
 	}
+	p.preY = r.Chance(e.pYieldPre)
+	return p
+}
+
+// op performs one write; returns whether it was on a negotiated stream.
+func (w *writer) op(e *env, wantNeg bool) bool {
+	return w.exec(e, w.prepare(e, wantNeg, false))
+}
+
+// exec performs a prepared write and records it.
+func (w *writer) exec(e *env, p *prepared) bool {
+	st, tm, pi, idx, hdr := p.st, p.tm, p.pi, p.idx, p.hdr
+	isNil := hdr == nil
+	s := e.slots[w.gid]
+	s.mu.Lock()
+	s.active, s.key, s.st, s.pre, s.tm, s.pay = true, p.key, st, &p.pre, tm, w.pays[pi]
+	s.seen, s.hasNum, s.num = 0, false, 0
+	s.yields, s.hold, s.inject = p.yield, p.hold, p.inj
 	s.mu.Unlock()
-	if r.Chance(e.pYieldPre) {
+	if p.preY {
 		runtime.Gosched()
 	}
 
